@@ -52,6 +52,15 @@ func c15Report(tb vt.TB, diffs []c15Diff, rc c15Replay) bool {
 	return false
 }
 
+// c15ErrClass names the one failure class of the writers that has a recognisable cause: the YAML writer refusing a
+// string (DEL, C1 controls, U+FFFE/U+FFFF) that the YAML reader accepted as an escape sequence.
+func c15ErrClass(err error) string {
+	if strings.Contains(err.Error(), "control characters are not allowed") {
+		return "/yaml-writer-rejects-control-character"
+	}
+	return ""
+}
+
 func c15LoadFlat(files []c15File) (*chart.Chart, error) {
 	bf := make([]*loader.BufferedFile, 0, len(files))
 	for _, f := range files {
@@ -96,7 +105,7 @@ func c15JudgeA(tb vt.TB, spec *c15Spec) (cut bool) {
 	}
 	tgz, err := chartutil.Save(c0, outA)
 	if err != nil {
-		return fail("C15:valid-chart-not-saved/save", "Save: "+err.Error())
+		return fail("C15:valid-chart-not-saved/save"+c15ErrClass(err), "Save: "+err.Error())
 	}
 	if after := c15SnapOf(c0).c15Text(); after != before {
 		if fail("C15:saving-modifies-chart-in-memory/save", fmt.Sprintf("before %s\nafter  %s", c15Q(before), c15Q(after))) {
@@ -148,7 +157,7 @@ func c15JudgeA(tb vt.TB, spec *c15Spec) (cut bool) {
 		tb.Fatalf("mkdir: %v", err)
 	}
 	if err := chartutil.SaveDir(c0, outD); err != nil {
-		return fail("C15:valid-chart-not-saved/save-dir", "SaveDir: "+err.Error())
+		return fail("C15:valid-chart-not-saved/save-dir"+c15ErrClass(err), "SaveDir: "+err.Error())
 	}
 	if after := c15SnapOf(c0).c15Text(); after != before {
 		if fail("C15:saving-modifies-chart-in-memory/save-dir", fmt.Sprintf("before %s\nafter  %s", c15Q(before), c15Q(after))) {
